@@ -32,6 +32,7 @@ class Monitor:
         self.hook = None
         self.record = True
         self.pulls = {}
+        self.inner_pulls = {}
 
     def emit(self, kind: str, *detail):
         self.seq += 1
@@ -107,6 +108,12 @@ class Item:
         return self._xs
 
     @property
+    def gxs(self):
+        """A lazily produced collection attribute: a fresh one-shot generator over xs that logs every pull."""
+        MON.emit("get", self.serial, "gxs")
+        return _inner_stream(self.serial, list(self._xs))
+
+    @property
     def ref(self):
         MON.emit("get", self.serial, "ref")
         return self._ref
@@ -138,6 +145,13 @@ class Item:
 
     def __repr__(self):
         return f"{type(self).__name__}#{self.serial}"
+
+
+def _inner_stream(serial, values):
+    for index, v in enumerate(values):
+        MON.emit("gpull", serial, index)
+        MON.inner_pulls[serial] = index + 1
+        yield v
 
 
 class A(Item):
